@@ -531,6 +531,13 @@ func (c *V1) Do(op Op) (out Outcome) {
 		if op.Table != "" {
 			tin.TransactItems = []*v1ddb.TransactWriteItem{{Put: &v1ddb.Put{TableName: aws.String(op.Table), Item: ItemToV1(op.Item)}}}
 		}
+		for _, a := range op.Acts {
+			if a.Put != nil {
+				tin.TransactItems = append(tin.TransactItems, &v1ddb.TransactWriteItem{Put: &v1ddb.Put{TableName: aws.String(a.Table), Item: ItemToV1(a.Put), ConditionExpression: strp(a.Cond)}})
+			} else {
+				tin.TransactItems = append(tin.TransactItems, &v1ddb.TransactWriteItem{Delete: &v1ddb.Delete{TableName: aws.String(a.Table), Key: ItemToV1(a.Del), ConditionExpression: strp(a.Cond)}})
+			}
+		}
 		_, err := c.callTransactWriteItems(tin)
 		return fin(err)
 	case OpCreateTable:
